@@ -19,7 +19,7 @@ package conf
 //        (1 WithCanonicalKeyFunc(strings.ToLower), 2 WithStringValues, 4 WithFromArray, 8 WithOpaqueKeys);
 //        S = encoding/json on the JSON rendering (optbits 0 only)
 //   file <ext> <env 0/1> <pre> <var> <val> <post>  => ok:"..." | err
-//   cload <style> <doc>                        => CJ=det:<res>|nondet CY=.. CT=..   (every loader 24 times: documents
+//   cload <style> <doc>                        => CJ=det:<res>|nondet CY=.. CT=..   (every loader up to 200 times: documents
 //        whose keys collide up to case; Go's map order must not decide)
 //   f32 <lit>                                  => U=.. L=.. S=..  ({"x":<lit>} into struct{X float32 `json:"x"`})
 //   fload <ext> <env 0/1> <api> <style> <doc>  => <res> [M=same|diff]   conf.Load / LoadConfig (/ MustLoad when Load
@@ -404,6 +404,23 @@ func (d *c17Doc) isComposite() bool {
 	return (d.kind == "arr" && len(d.arr) > 0) || (d.kind == "obj" && len(d.keys) > 0)
 }
 
+// c17YamlKey: with style bit 2 a key that reads as a YAML number or boolean is written unquoted, so that yaml.v2
+// decodes it to a non-string key (convertKeyToString brings it back through lang.Repr).
+func c17YamlKey(k string, style int) string {
+	if style&2 != 0 {
+		if k == "true" || k == "false" {
+			return k
+		}
+		if _, err := strconv.ParseInt(k, 10, 64); err == nil && strconv.Itoa(int(verifh.Atoi64(k))) == k {
+			return k
+		}
+		if k == "1.5" || k == "0.25" {
+			return k
+		}
+	}
+	return `"` + k + `"`
+}
+
 func (d *c17Doc) yamlFlow(b *strings.Builder) {
 	switch d.kind {
 	case "arr":
@@ -436,7 +453,7 @@ func (d *c17Doc) yamlBlock(b *strings.Builder, ind int, style int) {
 	case d.kind == "obj" && len(d.keys) > 0 && style&1 != 0:
 		for i, k := range d.keys {
 			v := d.vals[i]
-			b.WriteString(pad + `"` + k + `":`)
+			b.WriteString(pad + c17YamlKey(k, style) + `:`)
 			if v.isComposite() && ((v.kind == "obj" && style&1 != 0) || (v.kind == "arr" && style&2 != 0)) {
 				b.WriteByte('\n')
 				v.yamlBlock(b, ind+2, style)
@@ -685,7 +702,7 @@ var c17Names = []string{"Name", "Age", "URL", "MaxConns", "Host", "Port", "Tags"
 var c17Words = []string{"a", "b", "alpha", "Beta", "x1", "node-1", "v2.0", "on", "yes", "12", "7", "true", "0", "1",
 	"1.5", "Zed", "UPPER", "mixedCase", "k_v", "", "-3", "300", "abc"}
 
-var c17MapKeys = []string{"a", "B", "key1", "Key2", "UPPER", "x-y", "k_v", "name", "Port", "id"}
+var c17MapKeys = []string{"a", "B", "key1", "Key2", "UPPER", "x-y", "k_v", "name", "Port", "id", "12", "7", "true", "1.5", "-3"}
 
 func c17KeyVariants(name string) []string {
 	lo := strings.ToLower(name)
@@ -1091,7 +1108,8 @@ func (g *c17Gen) structEntries(t *c17Ty, d *c17Doc, mut int, nulls bool) {
 			// a field of the inner struct that inherits: sometimes only the enclosing level has its value
 			for k := range st.fields {
 				inner := &st.fields[k]
-				if inner.inherit && !inner.embedded && !strings.Contains(inner.tagKey(), ".") && r.Chance(1, 2) {
+				if inner.inherit && !inner.embedded && !strings.Contains(inner.tagKey(), ".") && r.Chance(1, 2) &&
+					!c17FoldClash(t, d, inner.tagKey()) {
 					for q, kk := range val.keys {
 						if kk == inner.tagKey() {
 							c17PutNested(d, []string{kk}, val.vals[q])
@@ -1136,6 +1154,31 @@ func (g *c17Gen) structEntries(t *c17Ty, d *c17Doc, mut int, nulls bool) {
 		}
 		c17PutNested(d, []string{key}, val)
 	}
+}
+
+// c17FoldClash: the object d (being built for struct t) would get two keys equal up to case, or a key that names
+// another field of t up to case.
+func c17FoldClash(t *c17Ty, d *c17Doc, key string) bool {
+	for _, k := range d.keys {
+		if k != key && strings.EqualFold(k, key) {
+			return true
+		}
+	}
+	var walk func(t *c17Ty) bool
+	walk = func(t *c17Ty) bool {
+		for i := range t.fields {
+			f := &t.fields[i]
+			if f.embedded {
+				if walk(f.ty) {
+					return true
+				}
+			} else if strings.EqualFold(f.tagKey(), key) || strings.EqualFold(strings.SplitN(f.tagKey(), ".", 2)[0], key) {
+				return true
+			}
+		}
+		return false
+	}
+	return walk(t)
 }
 
 func c17StructOf(t *c17Ty) *c17Ty {
@@ -1561,7 +1604,7 @@ func TestVerifC17(t *testing.T) {
 				ts, tok := d.renderTOML(style)
 				many := func(f func(v any) error) string {
 					first := ""
-					for i := 0; i < 24; i++ {
+					for i := 0; i < 200; i++ {
 						res := c17Decode(rt, f)
 						if i == 0 {
 							first = res
